@@ -158,9 +158,11 @@ SRC_TIE = {
     'C04': {'Block': ['Block1014.write', 'Block1014.finalise'], 'OneShot': ['block_1014', 'unblock_1014']},
     'C05': {'Unblock': ['Unblock1014.read', 'Block1014.write', 'Block1014.finalise'],
             'OneShot': ['block_1014', 'unblock_1014']},
-    'C01': {'Bits': ['BitArray.tolist', 'BitArray.fromlist'], 'Conv': ['_pytype_to_string', '_string_to_pytype']},
+    'C01': {'Bits': ['BitArray.tolist', 'BitArray.fromlist'], 'Conv': ['_pytype_to_string', '_string_to_pytype'],
+            'Entry': ['dumps', 'loads']},
     'C02': {'Bits': ['BitArray.tolist', 'BitArray.fromlist'], 'Field': ['_get_field_length', '_field_to_iso8583', '_iso8583_to_field_frame'],
-            'EncLoop': ['_dict_to_iso8583_loop', 'BitArray.fromlist'], 'Conv': ['_pytype_to_string', '_string_to_pytype']},
+            'EncLoop': ['_dict_to_iso8583_loop', 'BitArray.fromlist'], 'Conv': ['_pytype_to_string', '_string_to_pytype'],
+            'Entry': ['dumps', 'loads']},
     'C07': {'Pds': ['_pds_to_dict', '_icc_to_dict', '_pds_to_de'], 'Field': ['_string_to_pytype']},
     'C08': {'Pds': ['_pds_to_dict', '_icc_to_dict', '_pds_to_de'], 'Bits': ['BitArray.tolist', 'BitArray.fromlist'],
             'Field': ['_get_field_length', '_iso8583_to_field_frame', '_string_to_pytype'],
